@@ -22,6 +22,7 @@ def families(tier, F):
         ("cp1",  fs.sync_consts(4, CpHs=(2,), MaxEnv=6, Findings=F, Emit="paths", Scenario="one checkpoint, cap 2")),
         ("nocp", fs.sync_consts(4, CpHs=(2,), CpEnabled=False, MaxEnv=6, Findings=F, Emit="paths", Scenario="checkpoints disabled")),
         ("cp2f", fs.sync_consts(4, F=3, ForkAt=0, CpHs=(2, 4), Cap=3, MaxEnv=6, Findings=F, Emit="paths", Scenario="two checkpoints, a node on a branch contradicting the first")),
+        ("two", fs.sync_consts(3, F=2, ForkAt=1, F2=2, ForkAt2=1, CpHs=(2,), Cap=4, MaxEnv=5, Findings=F, Emit="paths", Scenario="two different branches contradicting the checkpoint, delivered by two nodes")),
         ("forb", fs.sync_consts(3, F=2, ForkAt=1, CpHs=(1,), Cap=4, Forbid=(4,), MaxEnv=6, Findings=F, Emit="paths", Scenario="forbidden header on a fork branch")),
         ("cptip", fs.sync_consts(5, CpHs=(5,), Cap=2, MaxEnv=5, Findings=F, Emit="paths", Scenario="last checkpoint at the honest tip")),
         ("raw", fs.sync_consts(5, F=2, ForkAt=3, CpHs=(2, 4), Cap=4, MaxEnv=5, MaxRaw=2, Findings=F, Emit="paths", Scenario="nodes that ignore the stop hash; a branch contradicting the second checkpoint")),
@@ -80,7 +81,7 @@ def sync_run(prop, tier, seed, kinds, replay_path):
     from concurrent.futures import ThreadPoolExecutor
     fams = families(tier, F)
     seeds = [rng.randrange(1 << 30) for _ in fams]
-    with ThreadPoolExecutor(max_workers=3) as ex:
+    with ThreadPoolExecutor(max_workers=2) as ex:
         futs = [ex.submit(fs.generate, prop + tag, consts, n_each, random.Random(sd)) for (tag, consts), sd in zip(fams, seeds)]
         for (tag, consts), fu in zip(fams, futs):
             out, n, r = fu.result()
